@@ -476,6 +476,10 @@ def run_case(case):
                 o1['estimator'] = o1['estimator'] if o1['estimator'] != 'mmm' else 'median'
             # integer-valued scenes have exact ties between peak values / fluxes: a "keep the N brightest"
             # selection among tied candidates is undefined (sort order of equal keys differs between dtypes)
+            if 'nclip' in o1:
+                # isophote samples: same rule (seen at thorough seed 3: float32, nclip=2, 75 points kept in both
+                # legs but not the same ones - rms 0.8 % apart while the intensity agreed to 5e-5)
+                o1['nclip'] = 0
             if 'npeaks' in o1:
                 o1['npeaks'] = None
             if 'brightest' in o1:
